@@ -89,9 +89,30 @@ def gen_comp(rng):
     return {"fam": "comp", "x": rng.choice([1, 2]), "ops": ops}
 
 
+def gen_wfd(rng):
+    """a Workflow (whose IO is its children's unconnected channels, so wiring changes its input KEYS) of three
+    children: histories of assignments, runs, connects, disconnects and re-wirings"""
+    ops = []
+    for _ in range(rng.randint(3, 12)):
+        r = rng.random()
+        if r < 0.25:
+            ops.append(["assign", rng.randrange(3), rng.choice([0, 1, 2, 5, -2])])
+        elif r < 0.65:
+            ops.append(["run"])
+        elif r < 0.85:
+            d = rng.choice([1, 2])
+            ops.append(["connect", d, rng.randrange(d)])
+        elif r < 0.95:
+            ops.append(["disconnect", rng.choice([1, 2])])
+        else:
+            ops.append(["clear"])
+    return {"fam": "wfd", "init": [rng.choice([1, 2, 3]) for _ in range(3)], "ops": ops}
+
+
 def generate(ctx):
     rng = ctx.rng
-    return [gen_leaf(rng) for _ in range(ctx.n(500, 6000))] + [gen_comp(rng) for _ in range(ctx.n(200, 2500))]
+    return ([gen_leaf(rng) for _ in range(ctx.n(500, 6000))] + [gen_comp(rng) for _ in range(ctx.n(200, 2500))] +
+            [gen_wfd(rng) for _ in range(ctx.n(150, 2000))])
 
 
 def corpus(ctx):
@@ -283,10 +304,60 @@ def comp_trace(case, use_cache):
     return tr
 
 
+def wfd_trace(case, use_cache):
+    from pyiron_workflow import Workflow
+    from pyiron_workflow.mixin.run import ReadinessError
+    from pyiron_workflow.nodes.composite import FailedChildError
+    nodes.reset()
+    wf = Workflow("w")
+    wf.recovery = None
+    kids = []
+    for i in range(3):
+        n = nodes.Chk1(label=f"n{i}", tag=i, k=3 + 10 * i, a=case["init"][i])
+        wf.add_child(n)
+        kids.append(n)
+    if not use_cache:
+        wf.use_cache = False
+        for c in kids:
+            c.use_cache = False
+    tr = []
+    for op in case["ops"]:
+        out = "done"
+        try:
+            if op[0] == "assign":
+                kids[op[1]].inputs.a.value = op[2]
+            elif op[0] == "run":
+                r = wf.run()
+                out = ["val", sorted([k, _slot(v)] for k, v in dict(r).items())]
+            elif op[0] == "connect":
+                kids[op[1]].inputs.a.disconnect_all()
+                kids[op[1]].inputs.a.connect(kids[op[2]].outputs.y)
+            elif op[0] == "disconnect":
+                kids[op[1]].inputs.a.disconnect_all()
+            elif op[0] == "clear":
+                wf.failed = False
+                for c in kids:
+                    c.failed = False
+        except ReadinessError:
+            out = "Readiness"
+        except FailedChildError:
+            out = "FailedChild"
+        except nodes.UserExc:
+            out = ["UserExc", 1]
+        except RuntimeError:
+            out = "Locked"
+        # the property speaks of what is returned and left in the OUTPUTS: a connected input that a cached run did not
+        # re-fetch may show another value than its twin's, which is not part of the claim
+        tr.append([out, [[], [_slot(c.outputs.y.value) for c in kids], bool(wf.running), bool(wf.failed)]])
+    return tr
+
+
 # ---- framework API -----------------------------------------------------------------------------
 def run_impl(case):
     if case["fam"] == "leaf":
         return {"cached": leaf_trace(case, True), "uncached": leaf_trace(case, False)}
+    if case["fam"] == "wfd":
+        return {"cached": wfd_trace(case, True), "uncached": wfd_trace(case, False)}
     return {"cached": comp_trace(case, True), "uncached": comp_trace(case, False)}
 
 
@@ -308,7 +379,16 @@ def oracle(case, obs):
 
 def _silent_before_run(case):
     seen = False
+    src = {}
     for op in case["ops"]:
+        if case["fam"] == "wfd":
+            # re-wiring an input that stays connected changes no key and no value of the workflow's input dictionary
+            if op[0] == "connect":
+                if op[1] in src and src[op[1]] != op[2]:
+                    seen = True
+                src[op[1]] = op[2]
+            elif op[0] == "disconnect":
+                src.pop(op[1], None)
         if op[0].startswith("silent"):
             seen = True
         elif op[0] == "run" and seen:
@@ -317,7 +397,7 @@ def _silent_before_run(case):
 
 
 def known(case, obs, verdict):
-    if case["fam"] == "comp" and _silent_before_run(case):
+    if case["fam"] in ("comp", "wfd") and _silent_before_run(case):
         return "S5-composite-cache-survives-internal-edit"
     return None
 
@@ -327,6 +407,8 @@ def nontrivial(case, obs):
         return False
     tc, tu = obs["cached"], obs["uncached"]
     runs = [i for i, op in enumerate(case["ops"]) if op[0] in ("run", "submit")]
+    if case["fam"] == "wfd":
+        return sum(1 for op in case["ops"] if op[0] == "run") >= 2 and any(op[0] in ("connect", "disconnect") for op in case["ops"])
     if case["fam"] == "comp":
         return any(o[0] == "val" for o, _ in tc if isinstance(o, list)) and any(o == "FailedChild" or o == "Readiness" for o, _ in tc)
     # a hit: the cached twin returned a value on a submit, or the call logs differ ... approximated by outcomes
@@ -347,7 +429,7 @@ def shrink_candidates(case):
 
 
 def distribution(results):
-    d = {"leaf": 0, "comp": 0, "ops": 0, "values": 0, "futures": 0, "readiness": 0, "locked": 0, "failures": 0,
+    d = {"leaf": 0, "comp": 0, "wfd": 0, "ops": 0, "values": 0, "futures": 0, "readiness": 0, "locked": 0, "failures": 0,
          "submit_served_from_cache": 0}
     for c, enc, v, o in results:
         d[c["fam"]] += 1
